@@ -1,5 +1,6 @@
 import LopdfModel.Lemmas.C09A85
 import LopdfModel.Lemmas.C09Png
+import LopdfModel.Lemmas.C09Dict
 namespace Lopdf
 open Gen
 
@@ -59,7 +60,7 @@ theorem bpp_eq_spec' (colors bits columns : Nat) (hb : bits = 8 ∨ bits = 16) (
     · rw [Nat.mul_comm, Nat.mul_assoc]
 
 /-! dictionary lemmas -/
-theorem Dict.get_set_same (d : Dict) (k : Bytes) (v : Obj) : (d.set k v).get k = some v := by
+theorem Dict.get_set_same_c09 (d : Dict) (k : Bytes) (v : Obj) : (d.set k v).get k = some v := by
   induction d with
   | nil => simp [Dict.set, Dict.get]
   | cons e rest ih =>
@@ -68,7 +69,7 @@ theorem Dict.get_set_same (d : Dict) (k : Bytes) (v : Obj) : (d.set k v).get k =
     · simp [Dict.set, Dict.get, h]
     · simp [Dict.set, Dict.get, h, ih]
 
-theorem Dict.get_set_other (d : Dict) (k k2 : Bytes) (v : Obj) (h : k ≠ k2) : (d.set k v).get k2 = d.get k2 := by
+theorem Dict.get_set_other_c09 (d : Dict) (k k2 : Bytes) (v : Obj) (h : k ≠ k2) : (d.set k v).get k2 = d.get k2 := by
   induction d with
   | nil => simp [Dict.set, Dict.get, h]
   | cons e rest ih =>
@@ -83,23 +84,24 @@ theorem Dict.get_set_other (d : Dict) (k k2 : Bytes) (v : Obj) (h : k ≠ k2) : 
 def LengthOk (s : Strm) : Prop := s.dict.get K_LENGTH = some (.int s.content.length)
 
 theorem setContent_length (s : Strm) (c : Bytes) : LengthOk (setContent s c) ∧ (setContent s c).content = c := by
-  simp [LengthOk, setContent, Dict.get_set_same, lenObj]
+  simp [LengthOk, setContent, Dict.get_set_same_c09, lenObj]
 
 theorem setPlainContent_length (s : Strm) (c : Bytes) : LengthOk (setPlainContent s c) ∧ (setPlainContent s c).content = c := by
   simp only [LengthOk, setPlainContent]
   have : SET_PLAIN_KEYS.getD 2 [] = K_LENGTH := by decide
   rw [this]
-  simp [Dict.get_set_same, lenObj]
+  simp [Dict.get_set_same_c09, lenObj]
 
 theorem compress_cases (deflate : Bytes → Bytes) (s : Strm) :
     compress deflate s = s ∨
     (s.dict.has K_FILTER = false ∧ (deflate s.content).length + COMPRESS_MARGIN < s.content.length ∧
-      compress deflate s = setContent { s with dict := s.dict.set K_FILTER (.name F_FLATE) } (deflate s.content)) := by
+      compress deflate s = setContent { s with dict := (s.dict.remove K_DECODEPARMS).set K_FILTER (.name F_FLATE) } (deflate s.content)) := by
   unfold compress
   have e1 : COMPRESS_GUARD_KEY = K_FILTER := by decide
   have e2 : COMPRESS_SET_KEY = K_FILTER := by decide
   have e3 : COMPRESS_SET_NAME = F_FLATE := by decide
-  rw [e1, e2, e3]
+  have e4 : COMPRESS_REMOVE_KEY = K_DECODEPARMS := by decide
+  rw [e1, e2, e3, e4]
   by_cases h : s.dict.has K_FILTER = true
   · simp [h]
   · simp only [h]
